@@ -94,6 +94,24 @@ var retShells = [][]retPart{
 	{shText("var grpV = func() (a, b interface{}, c int) {\n"),
 		shRet("return nil, %s, 0", "interface{}"), shRet("return nil, nil, %s", "int"),
 		shText("\treturn nil, nil, 0\n}\n")},
+	// a return of a literal BEHIND an inner literal that has ended in it (assigned, invoked, with a literal of its own, go / defer), inside
+	// declarations with no result / one result and at package level: the function around a statement is the innermost one on the PATH
+	// to it, not the one entered last; the declaration's result list is shorter than the literal's at every probed index
+	{shText("func grpAfter() {\n\ttakeAny(func() (s string, e interface{}, n int) {\n\t\th1 := func() int64 { return 1 }\n\t\t_ = h1\n"),
+		shRet("return \"\", %s, 0", "interface{}"), shRet("return \"\", nil, %s", "int"),
+		shText("\t\tfunc() {\n\t\t\t_ = func() (a, b string) { return \"\", \"\" }\n\t\t}()\n"),
+		shRet("return \"\", %s, 0", "interface{}"),
+		shText("\t\tdeep := func() (x int64, y interface{}) {\n\t\t\tdefer func() {}()\n"),
+		shRet("return 0, %s", "interface{}"),
+		shText("\t\t\treturn 0, nil\n\t\t}\n\t\t_ = deep\n"),
+		shRet("return \"\", nil, %s", "int"),
+		shText("\t\treturn \"\", nil, 0\n\t})\n}\n")},
+	{shText("func (S2) grpAfterM() (only string) {\n\tlit := func() (a int64, b int, c interface{}) {\n\t\tgo func() {}()\n"),
+		shRet("return 0, %s, nil", "int"), shRet("return 0, 0, %s", "interface{}"),
+		shText("\t\treturn 0, 0, nil\n\t}\n\t_ = lit\n\treturn \"\"\n}\n")},
+	{shText("var grpAfterV = func() (a string, b interface{}) {\n\t_ = func() {}\n"),
+		shRet("return \"\", %s", "interface{}"),
+		shText("\treturn \"\", nil\n}\n")},
 }
 
 // retSites: the return contexts in source order
